@@ -131,6 +131,8 @@ def _frames(block):
 
 def _clean_fn(fn):
     """`<a::b::Type<X>>::method::{closure#0}::h123` -> `b::Type::method`"""
+    fn = re.sub(r"\s*\(\.llvm\.\d+\)", "", fn)  # thin-LTO promoted local symbols carry this suffix
+    fn = re.sub(r"\.llvm\.\d+", "", fn)
     fn = re.sub(r"::h[0-9a-f]{16}$", "", fn)
     fn = re.sub(r"::\{closure#\d+\}|::\{\{closure\}\}|::\{shim[^}]*\}", "", fn)
     for _ in range(6):
@@ -473,6 +475,16 @@ def run_check(prop, spec, tier, seed, replay=None):
             # a worker that died without a result and without a sanitizer report: harness error or abort
             handler = spec.get("on_crash")
             handled = handler(r, out, viol_by_sig) if handler else False
+            # A worker killed by a memory-fault signal is an observation about the code under test (the
+            # harnesses are safe Rust over the public API), not a harness error. SIGKILL (OOM killer,
+            # watchdog), SIGABRT and panics stay inconclusive.
+            FAULTS = {-11: "SIGSEGV", -7: "SIGBUS", -4: "SIGILL", -8: "SIGFPE"}
+            if not handled and r["status"] == "crash" and r.get("rc") in FAULTS and job.flavour in ("dbg", "rel"):
+                sub = job.args.split()[0] if job.args else "?"
+                full = "%s:crash:%s:%s:%s" % (prop, FAULTS[r["rc"]], job.pkg, sub)
+                viol_by_sig.setdefault(full, []).append({"sig": full, "rule": "worker_killed_by_memory_fault", "msg": "the worker process was killed by %s while driving the API inside its contract (last output: %s)" % (FAULTS[r["rc"]], (r["stdout"][-300:] + " | " + r["stderr"][-300:]).replace("\n", " ")), "witness": {"replay_args": job.args}, "job": job.describe()})
+                log.write("== memory fault rc=%s %s\n%s\n%s\n" % (r.get("rc"), job.describe(), r["stdout"][-1500:], r["stderr"][-3000:]))
+                handled = True
             if not handled:
                 out.inconc("worker_%s:%s" % (r["status"], job.tag))
                 log.write("== %s rc=%s %s\n%s\n%s\n" % (r["status"], r.get("rc"), job.describe(), r["stdout"][-1500:], r["stderr"][-3000:]))
